@@ -70,8 +70,10 @@ def gp_model(rng, kind, d, m, ntrain):
     return mod
 
 
-def random_indices(rng, n):
+def random_indices(rng, n, allow_empty=False):
     r = rng.random()
+    if allow_empty and r > 0.97:
+        return []  # the empty subset: nothing may change
     if r < 0.15:
         return None
     if r < 0.4:
@@ -119,9 +121,11 @@ def fixed_space_sequence(mon, rng, kind):
     patching.UpdateWatch(ds, mon, label)
     steps = int(rng.integers(3, 30 if kind.startswith("stub") or kind == "empirical" else 8))
     for s in range(steps):
-        idx = random_indices(rng, n)
+        idx = random_indices(rng, n, allow_empty=kind.startswith("stub"))
         nidx = n if idx is None else len(idx)
         scale = random_scale(rng, nidx, m, ell)
+        if idx == []:
+            mon.count("empty_subset_updates")
         if kind.startswith("stub"):
             model.t += rng.choice([0.0, 0.05, 1.0])  # predictions drift between rounds
         elif kind == "empirical" and rng.random() < 0.5:
